@@ -546,6 +546,7 @@ func main() {
 		}(w)
 	}
 	wg.Wait()
+	fuzzStreams(r, env, names)
 	if hangs.Load() >= 3 {
 		r.Set("sweep_stopped_early_after_hangs", true)
 	}
@@ -954,4 +955,122 @@ func showStanzas(s []refage.Stanza) string {
 		parts = append(parts, fmt.Sprintf("{%s %v body=%dB}", x.Type, x.Args, len(x.Body)))
 	}
 	return "[" + strings.Join(parts, " ") + "]"
+}
+
+// ---- hostile byte streams (the C14 side of the plugin client) -------------------
+
+// fuzzStreams feeds the client byte streams that are NOT sequences of
+// well-formed messages: mutated concatenations of valid messages, raw random
+// bytes, very long lines, and streams cut at every kind of place. The only
+// oracle is the part of the property that still applies: the call returns (no
+// hang, no panic), and a success carries what a success must carry.
+func fuzzStreams(r *mon.Run, env *plug.Env, names []string) {
+	n := r.Pick(1500, 15000)
+	type fz struct {
+		machine int
+		raw     []byte
+		end     string
+	}
+	rng := r.RNG("fuzz-streams")
+	var cases []fz
+	alph := [][]msg{recipientAlphabet(), identityAlphabet()}
+	for i := 0; i < n; i++ {
+		machine := rng.Intn(2)
+		var raw []byte
+		k := 1 + rng.Intn(4)
+		for j := 0; j < k; j++ {
+			raw = append(raw, alph[machine][rng.Intn(len(alph[machine]))].raw...)
+		}
+		if rng.Intn(3) > 0 {
+			raw = append(raw, terminals[0].raw...)
+		}
+		switch rng.Intn(6) {
+		case 0: // bit flips
+			for f := 0; f < 1+rng.Intn(3) && len(raw) > 0; f++ {
+				raw[rng.Intn(len(raw))] ^= 1 << uint(rng.Intn(8))
+			}
+		case 1: // truncate
+			if len(raw) > 0 {
+				raw = raw[:rng.Intn(len(raw))]
+			}
+		case 2: // random bytes inserted
+			p := rng.Intn(len(raw) + 1)
+			raw = append(append(append([]byte{}, raw[:p]...), mon.Bytes(rng, 1+rng.Intn(40))...), raw[p:]...)
+		case 3: // newline games
+			raw = bytes.ReplaceAll(raw, []byte("\n"), [][]byte{[]byte("\r\n"), []byte("\n\n"), []byte(""), []byte(" \n")}[rng.Intn(4)])
+		case 4: // a very long line without newline
+			raw = append(raw, bytes.Repeat([]byte("A"), 1<<uint(10+rng.Intn(8)))...)
+		case 5: // pure noise
+			raw = mon.Bytes(rng, rng.Intn(300))
+		}
+		cases = append(cases, fz{machine, raw, []string{"exit", "linger"}[rng.Intn(2)]})
+	}
+	var next atomic.Int64
+	var wg sync.WaitGroup
+	for w := range names {
+		wg.Add(1)
+		go func(w int) {
+			defer wg.Done()
+			for {
+				i := int(next.Add(1)) - 1
+				if i >= len(cases) || hangs.Load() >= 3 {
+					return
+				}
+				c := cases[i]
+				name := names[w]
+				env.SetScript(name, &plug.Script{Steps: []plug.Step{{Send: c.raw, NoReply: true}}, End: c.end})
+				ui := buildUI(uiCfg{1, 1, 1}, &[]uiCall{}, &sync.Mutex{}, false)
+				done := make(chan callResult, 1)
+				go func() {
+					defer func() {
+						if p := recover(); p != nil {
+							done <- callResult{err: fmt.Errorf("PANIC: %v", p)}
+						}
+					}()
+					if c.machine == recipientMachine {
+						rc, err := plugin.NewRecipient(refage.Bech32Encode("age1"+name, []byte{7}), ui)
+						if err != nil {
+							done <- callResult{err: err}
+							return
+						}
+						s, l, err := rc.WrapWithLabels(wrapFileKey)
+						done <- callResult{stanzas: s, labels: l, err: err}
+					} else {
+						id, err := plugin.NewIdentity(refage.Bech32Encode("AGE-PLUGIN-"+strings.ToUpper(name)+"-", []byte{7}), ui)
+						if err != nil {
+							done <- callResult{err: err}
+							return
+						}
+						fk, err := id.Unwrap(identityStanzas)
+						done <- callResult{fileKey: fk, err: err}
+					}
+				}()
+				replay := map[string]any{"machine": c.machine, "stream": string(c.raw), "end": c.end}
+				select {
+				case res := <-done:
+					r.Eval(1)
+					r.DistinctBytes(append([]byte{byte(c.machine)}, c.raw...))
+					r.Count("hostile_streams", 1)
+					switch {
+					case res.err != nil && strings.HasPrefix(res.err.Error(), "PANIC"):
+						r.Violate("panic:hostile-stream", res.err.Error(), replay)
+					case res.err == nil && c.machine == recipientMachine && len(res.stanzas) == 0:
+						r.Violate("hostile-stream:success-without-stanza", fmt.Sprintf("wrap succeeded with no stanza on stream %q", c.raw), replay)
+					case res.err == nil && c.machine == identityMachine && res.fileKey == nil:
+						r.Violate("hostile-stream:success-without-file-key", fmt.Sprintf("unwrap succeeded with no file key on stream %q", c.raw), replay)
+					case res.err == nil:
+						r.Count("hostile_streams_still_valid", 1)
+					}
+					if tr, err := env.Transcript(name); err == nil && tr.End == "self-timeout" {
+						hangs.Add(1)
+						r.Violate("hang:hostile-stream:"+c.end, fmt.Sprintf("client kept the conversation open until the plugin's self-destruct on stream %q", c.raw), replay)
+					}
+				case <-time.After(120 * time.Second):
+					hangs.Add(1)
+					r.Violate("hang:hostile-stream:"+c.end, fmt.Sprintf("client did not return on stream %q", c.raw), replay)
+				}
+			}
+		}(w)
+	}
+	wg.Wait()
 }
